@@ -75,7 +75,13 @@ CHECKS = {
              "site of fault-free runs in turn with 7 failure kinds and verifies on the engine's response: data equals "
              "the specification executor's (null propagation to the nearest nullable ancestor, nothing else changes), "
              "every failure origin is reported, no error points elsewhere, every error path leads to a null. "
-             "PARTIAL: the global null-propagation equation is decided per run, not proved for all inputs.",
+             "Theorem C02_errors_are_exactly_the_specified_origins (Proofs/ExecOrigins.v, with the C01 refinement): for "
+             "queries with sibling fields all executed, whenever the specification's ExecuteQuery yields (data, origins) "
+             "the model returns that data -- so exactly the specification's nearest nullable positions are null and "
+             "every other part is untouched -- and the paths of `errors` are exactly the origins (every origin "
+             "reported, no entry elsewhere), for all inputs. PARTIAL: for mutations / sequential siblings the "
+             "accounting, and for all operations the message / locations / extensions of entries, are decided per "
+             "run, not proved.",
         note="Trusted: as C01; exceptions that are not Exception subclasses and user exceptions pre-setting their own "
              "path are outside the model.",
         design="4 C02"),
